@@ -265,3 +265,474 @@ pub fn c11_file(base_seed: u64, i: u64, g: &GenCtx) -> Plan {
     }
     single("C11", "c11-file", seed, Cfg::default(), data, lvl, ops)
 }
+
+// ---------------------------------------------------------------------------------------------
+// shared pieces for hasher histories
+
+pub fn join_policy(r: &mut Rng) -> JoinPolicy {
+    match r.below(6) {
+        0 => JoinPolicy::AllLeft,
+        1 => JoinPolicy::AllRight,
+        2 => JoinPolicy::AllConcurrent,
+        3 => JoinPolicy::PerSplit { bits: vec![0b01_00_01_00] }, // alternate left/right
+        _ => JoinPolicy::PerSplit { bits: (0..1 + r.usize_below(6)).map(|_| r.next() as u8).collect() },
+    }
+}
+
+pub struct AdapterMix {
+    pub io: bool,
+    pub rayon: bool,
+    pub simjoin: bool,
+    pub mmap: bool,
+    pub traits: bool,
+}
+
+pub fn adapter(r: &mut Rng, len: usize, mix: &AdapterMix) -> AbsorbVia {
+    let x = r.below(100);
+    if x < 45 {
+        return AbsorbVia::Update;
+    }
+    if mix.io && x < 65 {
+        return match r.below(5) {
+            0 => AbsorbVia::Write,
+            1 => AbsorbVia::WriteAll,
+            2 => AbsorbVia::IoCopy(clean_script(r)),
+            3 => AbsorbVia::ReaderDyn(clean_script(r)),
+            _ => AbsorbVia::Reader(clean_script(r)),
+        };
+    }
+    if mix.simjoin && x < 80 && len > KIB {
+        return AbsorbVia::SimJoin(join_policy(r));
+    }
+    if mix.rayon && x < 86 && len > KIB {
+        return AbsorbVia::Rayon { width: 1 + r.below(8) as u8 };
+    }
+    if mix.mmap && x < 89 {
+        return r.pick(&[AbsorbVia::Mmap, AbsorbVia::MmapRayon, AbsorbVia::ReaderFile]).clone();
+    }
+    if mix.traits && x < 96 {
+        return r.pick(&[AbsorbVia::TraitUpdate, AbsorbVia::DigestUpdate, AbsorbVia::MacUpdate]).clone();
+    }
+    AbsorbVia::Update
+}
+
+/// fragment sizes for delivering `total` bytes
+pub fn fragments(r: &mut Rng, total: usize) -> Vec<usize> {
+    let mut out = Vec::new();
+    let mut left = total;
+    let style = r.below(5);
+    let mut guard = 0;
+    while left > 0 && guard < 40 {
+        guard += 1;
+        let f = match style {
+            0 => left,                                   // all at once
+            1 => size(r, left.min(5 * KIB)),             // small pieces
+            2 => size(r, left),                          // anything
+            3 => *r.pick(&[1usize, 63, 64, 65, 1023, 1024, 1025, 2048, 4096, 16 * KIB, 17 * KIB]),
+            _ => {
+                if r.chance(1, 2) { size(r, left) } else { size(r, 3 * KIB) }
+            }
+        }
+        .min(left);
+        out.push(f);
+        left -= f;
+        if r.chance(1, 12) {
+            out.push(0); // zero-length call
+        }
+    }
+    if left > 0 {
+        out.push(left);
+    }
+    if total == 0 && r.chance(1, 2) {
+        out.push(0);
+    }
+    out
+}
+
+fn multi(prop: &str, family: &str, seed: u64, cfg: Cfg, data: Vec<DataSpec>, tasks: Vec<TaskPlan>, r: &mut Rng) -> Plan {
+    let schedule = if tasks.len() > 1 || cfg.pool_width > 1 { schedule(r) } else { Schedule::Explicit { choices: vec![] } };
+    Plan { prop: prop.into(), family: family.into(), seed, cfg, data, tasks, schedule }
+}
+
+fn query_op(r: &mut Rng, h: usize, traits: bool) -> Op {
+    let via = if traits {
+        *r.pick(&[FinVia::Inherent, FinVia::TraitClone, FinVia::MacOrDigest])
+    } else {
+        FinVia::Inherent
+    };
+    match r.below(4) {
+        0 => Op::Count { h },
+        1 | 2 => Op::Finalize { h, via },
+        _ => Op::FinalizeXof { h, r: None, n: xof_len(r), via },
+    }
+}
+
+pub fn xof_len(r: &mut Rng) -> usize {
+    match r.below(8) {
+        0 => *r.pick(&[0usize, 1, 31, 32, 33]),
+        1 => *r.pick(&[63usize, 64, 65, 127, 128, 129]),
+        2 => 1 + r.usize_below(300),
+        3 => *r.pick(&[1023usize, 1024, 1025, 16 * 64 - 1, 16 * 64, 16 * 64 + 1]),
+        _ => 1 + r.usize_below(140),
+    }
+}
+
+// ---------------------------------------------------------------------------------------------
+// C02: incremental hashing independent of splitting; finalize is a pure query
+
+pub fn c02(base_seed: u64, i: u64, g: &GenCtx) -> Plan {
+    let seed = mix(base_seed ^ 0xC02, i);
+    let mut r = Rng::new(seed);
+    let max = if g.tier_thorough {
+        if r.chance(1, 20) { 4 << 20 } else { 512 * KIB }
+    } else if r.chance(1, 12) {
+        256 * KIB
+    } else {
+        48 * KIB
+    };
+    let ntasks = if r.chance(2, 3) { 1 } else { 2 + r.usize_below(3) };
+    let nh = 1 + r.usize_below(3);
+    let mut data: Vec<DataSpec> = Vec::new();
+    let mut tasks: Vec<Vec<Op>> = vec![Vec::new(); ntasks];
+    let mut next_slot = 0usize;
+    let mixa = AdapterMix { io: r.chance(3, 4), rayon: r.chance(1, 3), simjoin: r.chance(1, 2), mmap: r.chance(1, 6), traits: false };
+    let mut conc = false;
+    for _ in 0..nh {
+        let total = size(&mut r, max);
+        data.push(data_spec(&mut r, total));
+        let di = data.len() - 1;
+        let m = mode(&mut r, &mut data);
+        let t = r.usize_below(ntasks);
+        let h = next_slot;
+        next_slot += 1;
+        tasks[t].push(Op::NewHasher { slot: h, mode: m, via: NewVia::Inherent });
+        let mut off = 0usize;
+        // (task, slot, current offset) of the live instances of this message
+        let mut cur_t = t;
+        for f in fragments(&mut r, total) {
+            let via = adapter(&mut r, f, &mixa);
+            tasks[cur_t].push(Op::Absorb { h, data: di, off, len: f, via });
+            off += f;
+            let x = r.below(20);
+            if x < 7 {
+                tasks[cur_t].push(query_op(&mut r, h, false));
+            } else if x == 7 {
+                // clone; the clone diverges with its own bytes, possibly on another task
+                let c = next_slot;
+                next_slot += 1;
+                tasks[cur_t].push(Op::CloneH { h, new: c });
+                let ct = if ntasks > 1 && r.chance(1, 2) {
+                    let mut o = r.usize_below(ntasks);
+                    if o == cur_t {
+                        o = (o + 1) % ntasks;
+                    }
+                    tasks[cur_t].push(Op::Send { slot: c, to: o });
+                    tasks[o].push(Op::Recv { slot: c });
+                    o
+                } else {
+                    cur_t
+                };
+                let extra = size(&mut r, 6 * KIB);
+                data.push(DataSpec::Random { seed: r.next(), len: extra });
+                let ei = data.len() - 1;
+                let mut eo = 0;
+                for ef in fragments(&mut r, extra) {
+                    let via = adapter(&mut r, ef, &mixa);
+                    tasks[ct].push(Op::Absorb { h: c, data: ei, off: eo, len: ef, via });
+                    eo += ef;
+                    if r.chance(1, 3) {
+                        tasks[ct].push(query_op(&mut r, c, false));
+                    }
+                }
+                tasks[ct].push(Op::Finalize { h: c, via: FinVia::Inherent });
+            } else if x == 8 {
+                tasks[cur_t].push(Op::ConcurrentFinalize { h, n: xof_len(&mut r) });
+                conc = true;
+            } else if x == 9 && ntasks > 1 {
+                // the hasher itself moves to another caller task
+                let mut o = r.usize_below(ntasks);
+                if o == cur_t {
+                    o = (o + 1) % ntasks;
+                }
+                tasks[cur_t].push(Op::Send { slot: h, to: o });
+                tasks[o].push(Op::Recv { slot: h });
+                cur_t = o;
+            }
+        }
+        tasks[cur_t].push(Op::Count { h });
+        tasks[cur_t].push(Op::Finalize { h, via: FinVia::Inherent });
+        tasks[cur_t].push(Op::FinalizeXof { h, r: None, n: xof_len(&mut r), via: FinVia::Inherent });
+        // finalize again: a pure query may be repeated
+        if r.chance(1, 2) {
+            tasks[cur_t].push(Op::Finalize { h, via: FinVia::Inherent });
+        }
+    }
+    let cfg = Cfg { pool_width: if conc || mixa.simjoin { 2 + r.below(6) as u8 } else { 1 }, ..Cfg::default() };
+    let tps = tasks.into_iter().map(|ops| TaskPlan { level: level(&mut r, g.avail), ops }).collect();
+    multi("C02", "c02", seed, cfg, data, tps, &mut r)
+}
+
+// ---------------------------------------------------------------------------------------------
+// C03: extended output is one coherent, seekable stream
+
+pub fn xof_pos(r: &mut Rng) -> u64 {
+    match r.below(14) {
+        0 => 0,
+        1 | 2 => r.below(4096),
+        3 => 64 * r.below(100) + *r.pick(&[0u64, 1, 63]),
+        4 | 5 => {
+            // around block counter 2^32
+            let blk = (1u64 << 32).wrapping_sub(r.below(40)).wrapping_add(r.below(40));
+            blk * 64 + *r.pick(&[0u64, 1, 31, 32, 63])
+        }
+        6 => (1u64 << 38) - r.below(3000),
+        7 => (1u64 << 38) + r.below(3000),
+        8 => (1u64 << 63) - 2000 + r.below(4000),
+        9 => u64::MAX - r.below(70000),
+        10 => u64::MAX - r.below(200),
+        _ => {
+            // log-uniform
+            let bits = r.below(64);
+            r.next() >> (63 - bits)
+        }
+    }
+}
+
+pub fn read_len(r: &mut Rng, thorough: bool) -> usize {
+    match r.below(12) {
+        0 => 0,
+        1 => *r.pick(&[1usize, 31, 32, 33]),
+        2 | 3 => *r.pick(&[63usize, 64, 65, 127, 128, 129]),
+        4 => *r.pick(&[1023usize, 1024, 1025]),
+        5 => *r.pick(&[16 * 64 - 1, 16 * 64, 16 * 64 + 1, 32 * 64 + 5]),
+        6 => r.usize_below(if thorough { 128 * KIB } else { 32 * KIB }),
+        _ => r.usize_below(400),
+    }
+}
+
+fn reader_ops(r: &mut Rng, rs: usize, n: usize, thorough: bool, traits: bool) -> Vec<Op> {
+    let mut ops = Vec::new();
+    for _ in 0..n {
+        let x = r.below(100);
+        if x < 50 {
+            let via = match r.below(10) {
+                0 => ReadVia::Read,
+                1 => ReadVia::ReadExact,
+                2 => ReadVia::Take,
+                3 => ReadVia::IoCopy,
+                4 if traits => ReadVia::XofReader,
+                _ => ReadVia::Fill,
+            };
+            ops.push(Op::Read { r: rs, n: read_len(r, thorough), via });
+        } else if x < 62 {
+            ops.push(Op::SetPosition { r: rs, p: xof_pos(r) });
+        } else if x < 72 {
+            ops.push(Op::Seek { r: rs, whence: Whence::Start, v: 0, vu: xof_pos(r) });
+        } else if x < 84 {
+            // relative seek: small, or large negative (may have to fail)
+            let v = match r.below(6) {
+                0 => -(r.below(5000) as i64),
+                1 => r.below(5000) as i64,
+                2 => -(xof_pos(r) as i64).abs(),
+                3 => i64::MIN + r.below(10) as i64,
+                4 => (r.next() >> 2) as i64,
+                _ => -(r.below(130) as i64),
+            };
+            ops.push(Op::Seek { r: rs, whence: Whence::Current, v, vu: 0 });
+        } else if x < 90 {
+            let v = *r.pick(&[0i64, -1, -64, 1, i64::MIN, i64::MAX, -1000]);
+            ops.push(Op::Seek { r: rs, whence: Whence::End, v, vu: 0 });
+        } else {
+            ops.push(Op::Position { r: rs });
+        }
+    }
+    ops
+}
+
+pub fn c03(base_seed: u64, i: u64, g: &GenCtx) -> Plan {
+    let seed = mix(base_seed ^ 0xC03, i);
+    let mut r = Rng::new(seed);
+    let ntasks = if r.chance(3, 4) { 1 } else { 2 };
+    let mut data = Vec::new();
+    let mut tasks: Vec<Vec<Op>> = vec![Vec::new(); ntasks];
+    let nr = 1 + r.usize_below(2);
+    let mut slot = 0;
+    for _ in 0..nr {
+        let len = match r.below(10) {
+            0 => 0,
+            1 | 2 => r.usize_below(65),
+            3 | 4 => r.usize_below(1025),
+            5 => 1025 + r.usize_below(2048),
+            6 => size(&mut r, 20 * KIB),
+            7 => size(&mut r, if g.tier_thorough { 300 * KIB } else { 70 * KIB }),
+            _ => r.usize_below(4 * KIB),
+        };
+        data.push(data_spec(&mut r, len));
+        let di = data.len() - 1;
+        let m = mode(&mut r, &mut data);
+        let t = r.usize_below(ntasks);
+        let h = slot;
+        let rs = slot + 1;
+        slot += 2;
+        tasks[t].push(Op::NewHasher { slot: h, mode: m, via: NewVia::Inherent });
+        tasks[t].push(Op::Absorb { h, data: di, off: 0, len, via: AbsorbVia::Update });
+        tasks[t].push(Op::FinalizeXof { h, r: Some(rs), n: read_len(&mut r, false).min(300), via: FinVia::Inherent });
+        let n1 = 3 + r.usize_below(25);
+        let mut ops = reader_ops(&mut r, rs, n1, g.tier_thorough, false);
+        let mut cur_t = t;
+        if r.chance(1, 4) {
+            // clone mid-way; both continue independently
+            let c = slot;
+            slot += 1;
+            let at = r.usize_below(ops.len() + 1);
+            ops.insert(at, Op::CloneR { r: rs, new: c });
+            tasks[cur_t].extend(ops);
+            let n2 = 2 + r.usize_below(10);
+            if ntasks > 1 && r.chance(1, 2) {
+                let o = (cur_t + 1) % ntasks;
+                tasks[cur_t].push(Op::Send { slot: c, to: o });
+                tasks[o].push(Op::Recv { slot: c });
+                let e = reader_ops(&mut r, c, n2, g.tier_thorough, false);
+                tasks[o].extend(e);
+            } else {
+                let e = reader_ops(&mut r, c, n2, g.tier_thorough, false);
+                tasks[cur_t].extend(e);
+            }
+            let n3 = 1 + r.usize_below(6);
+            let e = reader_ops(&mut r, rs, n3, g.tier_thorough, false);
+            tasks[cur_t].extend(e);
+        } else {
+            tasks[cur_t].extend(ops);
+            if ntasks > 1 && r.chance(1, 3) {
+                let o = (cur_t + 1) % ntasks;
+                tasks[cur_t].push(Op::Send { slot: rs, to: o });
+                tasks[o].push(Op::Recv { slot: rs });
+                cur_t = o;
+                let n4 = 2 + r.usize_below(10);
+                let e = reader_ops(&mut r, rs, n4, g.tier_thorough, false);
+                tasks[cur_t].extend(e);
+            }
+        }
+    }
+    let tps = tasks.into_iter().map(|ops| TaskPlan { level: level(&mut r, g.avail), ops }).collect();
+    multi("C03", "c03", seed, Cfg::default(), data, tps, &mut r)
+}
+
+// ---------------------------------------------------------------------------------------------
+// C10: reset() restores the initial state after any history; clones are independent
+
+pub fn valid_offset(r: &mut Rng) -> u64 {
+    let chunk = match r.below(8) {
+        0 => 1 + r.below(64),
+        1 => 1u64 << r.below(20),
+        2 => (1u64 << 32) - 1 + r.below(3),
+        3 => (1u64 << (32 + r.below(22))) + r.below(4),
+        4 => (1u64 << 54) - 1 - r.below(4),
+        _ => 1 + r.below(100000),
+    };
+    chunk.min((1u64 << 54) - 1) * 1024
+}
+
+/// what one client does with a checked-out hasher; cancelled at an arbitrary point
+fn client_ops(r: &mut Rng, h: usize, data: &mut Vec<DataSpec>, slot: &mut usize, mixa: &AdapterMix, traits: bool, max: usize) -> Vec<Op> {
+    let mut ops = Vec::new();
+    let use_offset = r.chance(1, 4);
+    let mut budget = usize::MAX;
+    if use_offset {
+        let off = valid_offset(r);
+        ops.push(Op::SetOffset { h, off });
+        let tz = (off / 1024).trailing_zeros().min(12);
+        budget = 1024usize << tz;
+    }
+    let total = size(r, max).min(budget);
+    data.push(data_spec(r, total));
+    let di = data.len() - 1;
+    let mut off = 0;
+    for f in fragments(r, total) {
+        let via = adapter(r, f, mixa);
+        ops.push(Op::Absorb { h, data: di, off, len: f, via });
+        off += f;
+        let x = r.below(12);
+        if x < 3 {
+            if use_offset {
+                let cv = *slot;
+                *slot += 1;
+                ops.push(Op::FinalizeNonRoot { h, cv });
+            } else {
+                ops.push(query_op(r, h, traits));
+            }
+        } else if x == 3 {
+            let c = *slot;
+            *slot += 1;
+            ops.push(Op::CloneH { h, new: c });
+            // clone and original diverge
+            let extra = 1 + r.usize_below(3000);
+            data.push(DataSpec::Random { seed: r.next(), len: extra });
+            if !use_offset {
+                ops.push(Op::Absorb { h: c, data: data.len() - 1, off: 0, len: extra, via: AbsorbVia::Update });
+                ops.push(Op::Finalize { h: c, via: FinVia::Inherent });
+            } else {
+                ops.push(Op::Count { h: c });
+            }
+        }
+    }
+    // cancellation: the client is cut off at an arbitrary operation
+    let keep = r.usize_below(ops.len() + 1);
+    ops.truncate(keep);
+    ops.push(Op::Cancel);
+    ops
+}
+
+pub fn c10(base_seed: u64, i: u64, g: &GenCtx) -> Plan {
+    let seed = mix(base_seed ^ 0xC10, i);
+    let mut r = Rng::new(seed);
+    let ntasks = if r.chance(3, 4) { 1 } else { 2 };
+    let mut data = Vec::new();
+    let mut tasks: Vec<Vec<Op>> = vec![Vec::new(); ntasks];
+    let npool = 1 + r.usize_below(2);
+    let mut slot = npool;
+    let mixa = AdapterMix { io: r.chance(1, 2), rayon: r.chance(1, 6), simjoin: r.chance(1, 4), mmap: false, traits: false };
+    let max = if g.tier_thorough { 200 * KIB } else { 40 * KIB };
+    for h in 0..npool {
+        let m = mode(&mut r, &mut data);
+        let mut t = r.usize_below(ntasks);
+        tasks[t].push(Op::NewHasher { slot: h, mode: m, via: NewVia::Inherent });
+        let clients = 2 + r.usize_below(3);
+        for c in 0..clients {
+            let ops = client_ops(&mut r, h, &mut data, &mut slot, &mixa, false, max);
+            tasks[t].extend(ops);
+            if c + 1 < clients {
+                tasks[t].push(Op::Reset { h, via: ResetVia::Inherent });
+                if ntasks > 1 && r.chance(1, 3) {
+                    let o = (t + 1) % ntasks;
+                    tasks[t].push(Op::Send { slot: h, to: o });
+                    tasks[o].push(Op::Recv { slot: h });
+                    t = o;
+                }
+            }
+        }
+        // the last client is not cancelled before it observed something
+        let total = size(&mut r, max);
+        data.push(data_spec(&mut r, total));
+        tasks[t].push(Op::Reset { h, via: ResetVia::Inherent });
+        tasks[t].push(Op::Count { h });
+        if r.chance(1, 3) {
+            let off = valid_offset(&mut r);
+            let tz = (off / 1024).trailing_zeros().min(12);
+            let len = total.min(1024usize << tz).max(1);
+            data.push(data_spec(&mut r, len));
+            tasks[t].push(Op::SetOffset { h, off });
+            tasks[t].push(Op::Absorb { h, data: data.len() - 1, off: 0, len, via: AbsorbVia::Update });
+            let cv = slot;
+            slot += 1;
+            tasks[t].push(Op::FinalizeNonRoot { h, cv });
+        } else {
+            tasks[t].push(Op::Absorb { h, data: data.len() - 1, off: 0, len: total, via: AbsorbVia::Update });
+            tasks[t].push(Op::Finalize { h, via: FinVia::Inherent });
+            tasks[t].push(Op::FinalizeXof { h, r: None, n: xof_len(&mut r), via: FinVia::Inherent });
+        }
+    }
+    let cfg = Cfg { pool_width: if mixa.simjoin { 2 + r.below(4) as u8 } else { 1 }, ..Cfg::default() };
+    let tps = tasks.into_iter().map(|ops| TaskPlan { level: level(&mut r, g.avail), ops }).collect();
+    multi("C10", "c10", seed, cfg, data, tps, &mut r)
+}
